@@ -9,7 +9,7 @@
     iterations of applyTranspositions, [go] the order in which ghosts are visited. *)
 From Coq Require Import Permutation Sorting.Sorted.
 From Wharf Require Import Base.Prelude Bowl.FSmini Bowl.OverlayCommit Bowl.OverlayCommitProofs Bowl.CommitSpec
-  Bowl.CommitMainProofs Bowl.CommitExamples.
+  Bowl.CommitMainProofs Bowl.CommitExamples Bowl.PatchPhaseProofs.
 
 (** Main statement.  For well-formed builds, a patch-phase result that describes the new build in
     terms of the old one ([patch_sound]: every new file is a whole old file, an old file at the
@@ -36,6 +36,37 @@ Theorem untouched_before_commit :
     out (patch_phase mk_overlay oc steps wd) = out wd.
 Proof. exact patch_phase_out. Qed.
 Print Assumptions untouched_before_commit.
+
+(** The bookkeeping of the patch phase ([GetWriter]: overlay when the old build has a file at that
+    path, staged whole file otherwise, each marked once; [Transpose]) yields a sound result
+    whenever the bowl calls describe the new build - every new file exactly once, either as a
+    transposition of an equal old file or as a write of its content - and the overlay writer is
+    correct (property C14: applying [mk_overlay cur new] to [cur] gives [new]). *)
+Theorem patch_phase_sound :
+  forall (mk_overlay : list N -> list N -> list ovop),
+    (forall cur new, apply_ops (mk_overlay cur new) cur = new) ->
+  forall (ob nb : build), wf_build ob ->
+  forall (steps : list pstep), steps_describe ob nb steps ->
+    let wd := patch_phase mk_overlay (cont ob) steps (world0 ob) in
+    out wd = tree_of ob /\ patch_sound ob nb (wk wd) (stg wd).
+Proof. exact patch_phase_sound_lemma. Qed.
+Print Assumptions patch_phase_sound.
+
+(** End to end: patch phase, then Commit, from the bowl calls to the new build. *)
+Theorem inplace_apply_equals_new :
+  forall (mk_overlay : list N -> list N -> list ovop),
+    (forall cur new, apply_ops (mk_overlay cur new) cur = new) ->
+  forall (ob nb : build) (steps : list pstep),
+    wf_build ob -> wf_build nb -> steps_describe ob nb steps ->
+    let wd := patch_phase mk_overlay (cont ob) steps (world0 ob) in
+    H_kinds ob nb (wk wd) ->
+  forall (order1 order2 : list path) (go : list ghost),
+    Permutation order1 (trans_keys (wk wd)) -> Permutation order2 (trans_keys (wk wd)) -> ghost_order_ok nb ob go ->
+    out wd = tree_of ob /\
+    exists t', commit (cont ob) (cont nb) (wk wd) (stg wd) order1 order2 go (out wd) = Ok t' /\
+               forall p, lookup t' p = lookup (tree_of nb) p.
+Proof. exact inplace_apply_lemma. Qed.
+Print Assumptions inplace_apply_equals_new.
 
 (** Go's [sort.Sort(byDecreasingLength)] (string length) and the executable model's
     deepest-first order are admissible ghost orders: any measure that grows strictly from a
